@@ -28,7 +28,7 @@ var (
 func issue(format string, a ...any) { issues = append(issues, fmt.Sprintf(format, a...)) }
 
 func parseFile(rel string) *ast.File {
-	f, err := parser.ParseFile(fset, filepath.Join(repo, rel), nil, parser.ParseComments)
+	f, err := parser.ParseFile(fset, filepath.Join(repo, rel), nil, 0)
 	if err != nil {
 		issue("parse %s: %v", rel, err)
 		return nil
@@ -194,6 +194,7 @@ func main() {
 	genLifecycle()
 	genShared()
 	genFlow()
+	genHpack()
 	facts["issues"] = issues
 	keys := make([]string, 0, len(facts))
 	for k := range facts {
